@@ -471,7 +471,7 @@ def decision_walk(fn, choose, watch_locals=(), start=0, limit=4096, track=None):
     boolean constants along each walk (const / copy / Not assignments, the two hooks for calls and loads) and
     follow only the matching edge of a switch on a known boolean; outcomes then carry 'env' (local -> bool)."""
     out = []
-    stack = [(start, {}, [], [], frozenset(), {})]
+    stack = [(start, {}, [], [], frozenset(), {}, {})]
     n = 0
     escaped = set()
     if track is not None:
@@ -491,7 +491,7 @@ def decision_walk(fn, choose, watch_locals=(), start=0, limit=4096, track=None):
             return env.get(pl["l"])
         return track["place_value"](pl) if track and track.get("place_value") else None
     while stack:
-        b, last, trace, calls, seen, env = stack.pop()
+        b, last, trace, calls, seen, env, pv = stack.pop()
         n += 1
         if n > limit:
             raise ShapeUnrecognised("decision table too large")
@@ -500,9 +500,19 @@ def decision_walk(fn, choose, watch_locals=(), start=0, limit=4096, track=None):
         seen = seen | {b}
         last = dict(last)
         env = dict(env)
+        pv = dict(pv)
         for s in fn.stmts(b):
+            if s["k"] == "assign" and not s["lhs"]["p"]:
+                # the value as assigned on *this* walk: a plain copy of a local assigned earlier on the walk takes that value,
+                # not the join of all the local's definitions
+                rv_ = s["rv"]
+                src_ = (rv_["a"].get("copy") or rv_["a"].get("move")) if rv_["k"] == "use" else None
+                if src_ is not None and not src_["p"] and src_["l"] in pv:
+                    pv[s["lhs"]["l"]] = pv[src_["l"]]
+                elif watch_locals:
+                    pv[s["lhs"]["l"]] = fn._rvalue(rv_, frozenset(), 30, b)
             if s["k"] == "assign" and not s["lhs"]["p"] and s["lhs"]["l"] in watch_locals:
-                last[s["lhs"]["l"]] = (b, fn._rvalue(s["rv"], frozenset(), 30, b))
+                last[s["lhs"]["l"]] = (b, pv.get(s["lhs"]["l"]) if s["lhs"]["l"] in pv else fn._rvalue(s["rv"], frozenset(), 30, b))
             if track is not None and s["k"] == "assign" and not s["lhs"]["p"]:
                 rv = s["rv"]
                 v = None
@@ -542,7 +552,7 @@ def decision_walk(fn, choose, watch_locals=(), start=0, limit=4096, track=None):
                     continue  # unreachable otherwise-arm of an exhaustive enum match
                 if want is None or lab in want:
                     took = True
-                    stack.append((tgt, last, trace + [(b, lab)], calls, seen, env))
+                    stack.append((tgt, last, trace + [(b, lab)], calls, seen, env, pv))
             if not took:
                 out.append({"end": b, "last": last, "trace": trace, "calls": calls, "stuck": True, "env": env})
             continue
@@ -551,7 +561,7 @@ def decision_walk(fn, choose, watch_locals=(), start=0, limit=4096, track=None):
             out.append({"end": b, "last": last, "trace": trace, "calls": calls, "env": env})
             continue
         for sx in succ:
-            stack.append((sx, last, trace, calls, seen, env))
+            stack.append((sx, last, trace, calls, seen, env, pv))
     return out
 
 
